@@ -2,16 +2,17 @@
 package c17
 
 import (
-	"time"
 	"bytes"
 	"errors"
 	"fmt"
 	"math"
 	"reflect"
+	"sort"
 	"strconv"
 	"strings"
 	"syscall"
 	"testing"
+	"time"
 
 	"github.com/benhoyt/goawk/interp"
 	"github.com/benhoyt/goawk/parser"
@@ -83,7 +84,7 @@ type Sig struct {
 	RetNum  float64 `json:"ret_num,omitempty"`
 	RetStr  h.Str   `json:"ret_str,omitempty"`
 	RetBool bool    `json:"ret_bool,omitempty"`
-	Fail    bool    `json:"fail,omitempty"` // returns a non-nil error
+	Fail    bool    `json:"fail,omitempty"`  // returns a non-nil error
 	Named   bool    `json:"named,omitempty"` // parameter and result types are named types (time.Duration, type nStr string ...)
 }
 
@@ -731,4 +732,91 @@ func runBad(x *h.Ctx, c BadCase) string {
 func init() {
 	h.Prop("conversion_table", 30000, 500000, genCase, run)
 	h.Prop("invalid_shapes_rejected", 400, 4000, genBad, runBad)
+}
+
+// ---------------------------------------------------------------------------
+// shapes at the edge of the documented kinds: rejected at setup or callable, never a panic at call time
+
+type myByte uint8
+type myBytes []myByte
+type namedBytes []byte
+
+var edgeShapes = map[string]struct {
+	fn   any
+	args int
+}{
+	"typed-nil-func":         {(func() int)(nil), 0},
+	"typed-nil-func-args":    {(func(string, int) string)(nil), 2},
+	"typed-nil-variadic":     {(func(...int) int)(nil), 3},
+	"slice-of-named-byte":    {func(b []myByte) int { return len(b) }, 1},
+	"named-slice-named-byte": {func(b myBytes) int { return len(b) }, 1},
+	"variadic-named-byte":    {func(b ...[]myByte) int { return len(b) }, 2},
+	"result-named-byte":      {func() []myByte { return []myByte{65, 66} }, 0},
+	"result-named-bytes":     {func() myBytes { return myBytes{65} }, 0},
+	"named-byte-slice":       {func(b namedBytes) int { return len(b) }, 1},
+	"result-namedbytes":      {func() namedBytes { return namedBytes("ok") }, 0},
+	"named-byte-param":       {func(b myByte) int { return int(b) }, 1},
+	"byte-array-param":       {func(b [4]byte) int { return 4 }, 1},
+	"result-byte-array":      {func() [2]byte { return [2]byte{65, 66} }, 0},
+	"uintptr-param":          {func(p uintptr) int { return int(p) }, 1},
+	"result-uintptr":         {func() uintptr { return 7 }, 0},
+	"rune-slice-param":       {func(r []rune) int { return len(r) }, 1},
+	"string-slice-variadic":  {func(s ...[]string) int { return len(s) }, 1},
+	"result-nil-error-iface": {func() (int, error) { var e *myErr; _ = e; return 1, nil }, 0},
+	"result-typed-nil-error": {func() (int, error) { var e *myErr; return 1, e }, 0},
+}
+
+type EdgeCase struct {
+	Which string `json:"which"`
+	Extra int    `json:"extra"` // call with this many arguments fewer than declared (missing arguments are zero values)
+}
+
+func genEdge(t *rapid.T) EdgeCase {
+	names := make([]string, 0, len(edgeShapes))
+	for k := range edgeShapes {
+		names = append(names, k)
+	}
+	sort.Strings(names)
+	return EdgeCase{Which: rapid.SampledFrom(names).Draw(t, "shape"), Extra: rapid.IntRange(0, 1).Draw(t, "fewer")}
+}
+
+func runEdge(x *h.Ctx, c EdgeCase) (msg string) {
+	sh := edgeShapes[c.Which]
+	n := sh.args - c.Extra
+	if n < 0 {
+		n = 0
+	}
+	args := make([]string, n)
+	for i := range args {
+		args[i] = []string{`"ab"`, "66", `"xyz"`}[i%3]
+	}
+	src := "BEGIN { r = ef(" + strings.Join(args, ", ") + "); print \"done\" }"
+	funcs := map[string]any{"ef": sh.fn}
+	defer func() {
+		if r := recover(); r != nil {
+			msg = fmt.Sprintf("a native function of shape %s was accepted at setup and panicked when called: %v\nprogram: %s", c.Which, r, src)
+		}
+	}()
+	prog, err := parser.ParseProgram([]byte(src), &parser.ParserConfig{Funcs: funcs})
+	if err != nil {
+		x.Class("rejected-by-parser")
+		x.Nontrivial(c.Which)
+		return ""
+	}
+	var out bytes.Buffer
+	_, err = interp.ExecProgram(prog, &interp.Config{Output: &out, Stdin: strings.NewReader(""), Environ: []string{}, Funcs: funcs})
+	if err != nil {
+		if out.Len() != 0 && c.Which != "result-typed-nil-error" {
+			return fmt.Sprintf("shape %s: the run failed (%v) after producing output %q; a rejection has to happen at setup", c.Which, err, out.String())
+		}
+		x.Class("rejected-at-setup")
+	} else {
+		x.Class("accepted-and-callable")
+	}
+	x.Nontrivial(c.Which + strconv.Itoa(c.Extra))
+	return ""
+}
+
+func init() {
+	h.Prop("edge_shapes_rejected_or_callable", 300, 3000, genEdge, runEdge)
 }
